@@ -105,7 +105,45 @@ func Worker(shard, n int, tier string) *engine.Result {
 			continue
 		}
 		lastNames = nil
-		_, ref, _ := f.RunReference(p, tmpl)
+		h, ref, wref := f.RunReference(p, tmpl)
+		// conformance of the E1 engine's virtual block boundary: the same concrete blocks with
+		// EndBlock / transient reset / BeginBlock on the uncommitted state must give the same
+		// responses and leave the same stores as real Commit-separated blocks
+		if (i/n)%4 == 0 {
+			saved := f.OnCommit
+			f.OnCommit = nil
+			vtr, wv := f.Replay(h, replica.Variant{Name: "virtual", Virtual: true, RestartAt: -1})
+			f.OnCommit = saved
+			var refNoCommit replica.Trace
+			for _, st := range ref {
+				if !strings.Contains(st.Label, ".commit") {
+					refNoCommit = append(refNoCommit, st)
+				}
+			}
+			res.Counters["virtual_boundary_conformance_histories"]++
+			if dd := replica.FirstDiff(refNoCommit, vtr); dd >= 0 {
+				res.HarnessErr = fmt.Sprintf("virtual block boundary diverges from real blocks in history %s at %s", cur, refNoCommit[dd].Label)
+			}
+			for _, name := range engine.AllStores(wref) {
+				a := engine.DumpStore(wref.App.BaseApp.VerifDeliverCtx(), wref, name)
+				b := engine.DumpStore(wv.App.BaseApp.VerifDeliverCtx(), wv, name)
+				diff := engine.DiffStores(a, b)
+				var keep []string
+				for _, dl := range diff {
+					// staking's historical-info entries embed the block header, whose AppHash only a real Commit produces
+					if name == "staking" && strings.HasPrefix(dl, "50") {
+						continue
+					}
+					keep = append(keep, dl)
+				}
+				if len(keep) > 0 {
+					if len(keep) > 3 {
+						keep = keep[:3]
+					}
+					res.HarnessErr = fmt.Sprintf("virtual block boundary leaves store %s different from real blocks in history %s: %v", name, cur, keep)
+				}
+			}
+		}
 		for _, st := range ref {
 			if strings.Contains(st.Label, "deliver") && strings.HasPrefix(st.Detail, "code=0 ") {
 				res.Nontrivial[cur] = true
